@@ -61,6 +61,9 @@ def run(ctx):
         if clause.startswith('drift_'):
             drift += 1
             continue
+        if clause.startswith('MACHINERY'):
+            from tlc import MachineryError
+            raise MachineryError(f'{eid}: {clause}')
         zero_operand = ev['a'] == [[[0, 1]]] or ev['b'] == [[[0, 1]]]
         fp = {'kind': 'poly', 'clause': clause, 'op': ev['op'], 'cls': ev['cls'], 'raised': ev['raised'], 'n': ev['n']}
         ctx.report(f"{ev['cls']} {ev['op']} a={ev['a']} b={ev['b']} n={ev['n']} -> {ev['res']}: {clause}" + (f" (raised {ev['raised']})" if ev['raised'] else ''),
